@@ -43,6 +43,18 @@ CLAIMS = {
    note=NOTE_COMMON + 'No theorem is claimed for C05 yet. Known finding D12 (double visit on iteration-with-removal across the table end) is listed in known_findings.txt.',
    technique='extracted-model differential testing + trace monitor (proofs pending)', design='7/C05'),
 }
+CLAIMS['C06'] = dict(
+   text='Coq theorems over a small-step model of thpool.c at the granularity of pthread operations, for EVERY schedule (arbitrary list of thread '
+        'choices incl. spurious wake-ups), every flavour (eager/lazy, joinable/detached, wait-all or not) and any number of submitters, workers '
+        'and tasks: tasks are conserved by every transition, hence every task runs at most once, only submitted tasks run, discarded tasks never '
+        'ran. Tie: the real thpool.c runs under a deterministic scheduler (link-time wraps of its pthread calls, virtualised mutex/condition); for '
+        'the same schedule the per-step pending-operation codes and the execution log must equal the extracted model (random schedules + every '
+        'schedule prefix of length 5 over a 1x1x2 pool); ASan reports a worker touching a freed pool.',
+   note=NOTE_COMMON + 'NOT proved (decided per run by the scheduler harness and its monitors only): wait-all / wait-current completeness, quiescence after free, '
+        'deadlock freedom, bounded parallelism. Below the model: accesses outside the lock (entry asserts, atomic running counter), weak memory; m_thpool_length/clear not modelled; '
+        'free is assumed to happen after every submitter call returned.',
+   technique='Coq proof (conservation invariant by induction over arbitrary schedules) tied by deterministic-scheduler differential testing',
+   design='7/C06')
 CORE_TEXT = {
  'C01': 'guards of every state-changing call refuse without effect (any wrong state, zombies, no context); plus per-run monitors: no handler for a non-RUNNING module, reported running count = RUNNING modules',
  'C02': 'copies: ineligible modules get nothing, eligible ones exactly one copy appended at the tail of their pipe carrying sender/topic/payload, full pipe drops the copy, capacity >= 8192, direct tell reaches the addressee only; per-run monitors: at-most-once, send order, auto-free exactly once',
